@@ -1105,3 +1105,41 @@ MUTANTS.append(dict(id="c14-memo-in-mutable-default", props=["C14"], file=COMPIL
             continue
 '''),
 ]))
+M("c20-hessian-failure-cached", "C20", SCIPY,
+  '''            compiled_hess = compile_hessian(obj_expr, variables)
+            cache["hess_fn"] = compiled_hess
+''', '''            try:
+                compiled_hess = compile_hessian(obj_expr, variables)
+            except Exception:
+                compiled_hess = None
+                cache["hess_fn"] = None
+                use_hessian = False
+            cache["hess_fn"] = compiled_hess
+''', "R20.4", "solve_scipy:Problem._solver_cache", expect="any")
+M("c13-minimize-skips-equal-objective", "C13", PROBLEM,
+  '''        self._objective = self._validate_expression(expr, "minimize")
+        self._sense = "minimize"
+''', '''        expr = self._validate_expression(expr, "minimize")
+        if expr == self._objective and self._sense == "minimize":
+            return self
+        self._objective = expr
+        self._sense = "minimize"
+''', "R13.1", "Problem.minimize")
+MUTANTS.append(dict(id="c09-duplicate-constraints-dropped", props=["C09"], file=SCIPY, rule="R09.1", construct="_build_solver_cache:constraint-loop", edits=[
+  ('''    # Build constraints for SciPy
+    scipy_constraints = []
+''', '''    # Build constraints for SciPy
+    scipy_constraints = []
+    seen_rows: set = set()
+'''),
+  ('''        c_expr = c.expr
+        if c_expr is None:
+            continue
+        c_fn = compile_expression(c_expr, variables)''', '''        c_expr = c.expr
+        if c_expr is None:
+            continue
+        if (str(c_expr), c.sense) in seen_rows:
+            continue
+        seen_rows.add((str(c_expr), c.sense))
+        c_fn = compile_expression(c_expr, variables)'''),
+]))
